@@ -14,6 +14,16 @@ RULES = {
     'C10': _HIST + " Op mix biased to the six composition entry points; expected inputs/outputs/truth table computed by the model as the composition of the two functions.",
     'C19': _HIST + " Op mix biased to rename / replace_inputs / remove_gate / replace_subcircuit with model-manufactured equivalent replacements of cut-bounded cones.",
     'C14': _HIST + " Op mix biased to into_bench on circuits with every gate type, blocks, repeated outputs, GT(x,x) etc.",
+    'C07': _HIST + " Op `gadget` applies a summation generator (11 entry points, enum and string bases, both endiannesses, weights with repeats and gaps, shifts beyond both widths) to operand gates sampled from a live host; identity checked on every lane (exhaustive for hosts with <= 11 inputs, 768 seeded lanes with corner lanes otherwise).",
+    'C08': _HIST + " Op `gadget` applies one of the seven add_mul* functions, generate_mul in six modes, add_square(_pow2_m1), generate_square; widths 1..8 x 1..8 (exhaustive lanes when the host has <= 11 inputs) plus Karatsuba widths 18, 20..24 on sampled lanes.",
+    'C09': _HIST + " Op `gadget` applies subtraction, subtract-with-compare, div-mod, sqrt, equality, plus-one (all option combinations), if-then-else and the pairwise gadgets to operand gates of a live host.",
+    'C05': _HIST + " Ops `tseytin` (output selections: all, subsets, repeats, empty, single) and `circuit_sat` (17 solver names, seeded model order) on population circuits with <= 8 inputs; the CNF is decided by the harness for every total input assignment (bit-parallel unit propagation, DPLL/z3 fallback).",
+    'C13': _HIST + " Op `miter` pairs a population circuit with a random circuit of the same shape, an equivalent rewrite, a one-gate-off rewrite, itself, another population member or a circuit of a different shape.",
+    'C11': _HIST + " Ops `bench_roundtrip` (format -> parse via string, list of lines, generator, or save/load through SimFS with missing parents / pre-existing longer file / mkdir race) and `bench_layout` (model netlist rendered in a seeded layout: any declaration order, any operator case, BUFF/vdd aliases, comments, blank lines). distinct_nontrivial additionally counts distinct round-tripped circuit shapes (prefix bench:).",
+    'C16': _HIST + " Ops `codec` (encode/decode of population circuits incl. non-topological storage orders), `bitio`, `dictio` (arbitrary keys incl. non-ASCII, empty, 65535 bytes; every proper prefix of every file <= 600 bytes enumerated as a crash point, trailing bytes, short reads under three chunk policies) and `db_history` (open/add/get/save/close/re-open on None, BytesIO, SimFS .bin and .xz sources; every prefix of every saved file re-opened). distinct_nontrivial additionally counts distinct encoded circuits (codec:), bit strings (bits:), dictionary files (dict:) and DB histories (db:).",
+    'C20': _HIST + " Op `traverse`: 1-4 generators (top_sort / dfs / bfs, seeded start sets, directions, hook subsets) in flight on one circuit, resumed in a seeded order; faults: abandon, re-entrant hook, raising hook; 8% of the ops run the cycle check on a deliberately (possibly) cyclic parsed netlist. distinct_nontrivial additionally counts distinct (task kinds, resume order) interleavings (sched:).",
+    'C06': ("One evaluation = one simulated run of 2-6 synthesis cases. A case draws a function model (TruthTableModel from values or strings, or PyFunctionModel; n in 1..4, m in 1..3; don't-care patterns none / some / rows / one output all / all), a gate budget 0..5, a basis (AIG/XAIG/FULL as enum or string, or a custom Operation list with repeats), 0-3 fix_gate/forbid_wire constraints, normalisation, a time limit in {None, 0, 1, 15} and an explicit pool fault (timeout / worker death); the real CircuitFinderSat runs against SimSAT (seeded model choice and order) and SimPool on the virtual clock. Completeness is judged against a brute-force enumerator within a leaf budget. distinct_nontrivial = distinct (function table, care masks, N, basis, constraints, outcome) cases plus distinct returned circuit shapes."),
+    'C04': ("One evaluation = one simulated run of 1-3 minimize_subcircuits calls on circuits over NOT + ten binary gate types (2-6 inputs, 3-25 gates, 1-3 outputs, dead logic, repeated operands), optionally fed back into a second call, with seeded basis/size/cut/time-limit parameters, SimCuts personality (faithful | adversarial), SimSAT model choice, per-call pool faults (timeout rate 0/5/25/60/100 %, worker death) and the batch's hash seed. distinct_nontrivial = distinct argument circuit shapes (RefNet shape digest) for which the call returned and was judged."),
 }
 
 ASSUMPTIONS = {
